@@ -165,6 +165,11 @@ def run(ctx):
             for f in OPS:
                 k += 1
                 cs.append(dict(op='mix', f=f, c1=c1, c2=c2, a=[7, 1], b=[3, 1], k=k, pre=pre))
+    for (c1, c2) in (('EUR', 'USD'), ('JPY', 'KWD'), ('USD', 'EUR')):
+        for f in ('lt', 'le', 'gt', 'ge', 'eq', 'ne', 'add'):
+            for (a, b) in (([-1, 1], [1, 1]), ([1, 1], [-1, 1]), ([-5, 2], [7, 1])):      # amounts of opposite sign
+                k += 1
+                cs.append(dict(op='mix', f=f, c1=c1, c2=c2, a=a, b=b, k=k))
     cs += newcur_cases()
     cs += construct_cases(quick)
     # quantity * price per quantity: money in the price's currency, in every order of currencies
